@@ -168,7 +168,10 @@ def h_threads(kind, same_key, preemptions, cache_size=None, second="call"):
 
         def args(key):
             if kind == "tzoffset":
-                return (tz.tzoffset,) + tuple(key)
+                name, off = key
+                if isinstance(off, str):         # "timedelta:<seconds>" spelling of the key table
+                    off = datetime.timedelta(seconds=float(off.split(":")[1]))
+                return (tz.tzoffset, name, off)
             if kind == "tzstr":
                 return (tz.tzstr,) + tuple(key)
             if kind == "tzutc":
@@ -228,13 +231,15 @@ def h_equal(kind):
         if kind == "tzrange":
             return tz.tzrange("STD", v * 3600, "DST", v * 3600 + 3600)
         if kind == "tzstr":
-            return tz.tzstr(["EST5EDT", "AEST-10AEDT,M10.1.0,M4.1.0/3", "UTC+3", "CET-1CEST,M3.5.0,M10.5.0/3"][v % 4])
+            if v % 6 >= 4:         # the POSIX reading of GMT+h / UTC+h is part of the zone's identity
+                return tz.tzstr(["UTC+3", "GMT-5"][v % 6 - 4], posix_offset=True)
+            return tz.tzstr(["EST5EDT", "AEST-10AEDT,M10.1.0,M4.1.0/3", "UTC+3", "CET-1CEST,M3.5.0,M10.5.0/3"][v % 6])
         if kind == "tzutc":
             return tz.tzutc()
         return tz.gettz(GETTZ_NAMES[v % len(GETTZ_NAMES)])
 
     def fn(ctx, a, b, t, proto):
-        ctx.assume(S.within(a, -2, 2) if kind != "gettz" else S.within(a, 0, len(GETTZ_NAMES) - 1))
+        ctx.assume(S.within(a, 0, 5) if kind == "tzstr" else (S.within(a, -2, 2) if kind != "gettz" else S.within(a, 0, len(GETTZ_NAMES) - 1)))
         ctx.assume(S.within(b, a, a + 1))
         ctx.assume(S.within(t, 0, 400 * 86400))
         ctx.assume(S.within(proto, 0, 5))
@@ -256,6 +261,11 @@ def h_equal(kind):
             return (d.utcoffset(), d.dst(), d.tzname())
         if za == zb:
             ctx.check(answers(za) == answers(zb), "equal zones answer differently", key="eq-answers-" + kind)
+        if kind == "tzstr":
+            for v, z in ((a, za), (b, zb)):
+                if v % 6 >= 2 and v % 6 != 3:
+                    want = {2: 3, 4: -3, 5: 5}[v % 6]      # 'UTC+3' = three hours ahead; with posix_offset=True three behind; 'GMT-5' posix = five ahead
+                    ctx.check(z.utcoffset(when) == datetime.timedelta(hours=want), "tzstr GMT/UTC offset reading differs from the request", key="tzstr-posix-offset")
         if kind == "tzoffset-td":
             for v, z in ((a, za), (b, zb)):
                 ctx.check(z.utcoffset(None) == datetime.timedelta(seconds=3600, microseconds=250000 * v),
